@@ -1,6 +1,21 @@
 """Per property: what is tied to the source by translation + theorem (appended to LEVEL_TEXT / TECHNIQUE in MANIFEST.json by
 tools/mkmanifest.py; the theorems themselves are listed in coq/Properties_Cxx.v and docs/THEOREMS.md)."""
 SRC_TIE = {
+    "C02": " SOURCE TIE BY PROOF: UtestShell::getNext / addTest / countTests, UtestShellPointerArray::swap / get / relinkTestsInOrder / reverse / shuffle "
+           "and TestRegistry::addTest / getFirstTest / getTestWithNext / countTests are regenerated from the source on every run (tools/cxx2heap.py; "
+           "PlatformSpecificRand() as a ghost stream) and proved to implement the model's relink / reverse / shuffle / add_test on the heap "
+           "representation (shells pairwise distinct); TestFilter::match is tied as a translated leaf. runAllTests itself stays model + correspondence.",
+    "C03": " SOURCE TIE BY PROOF: the assert entry points of UtestShell (18 functions; assertDoublesEqual through its predicate doubles_equal) are "
+           "regenerated from Utest.cpp on every run (tools/cxx2gal.py; countCheck and failWith as ghost events) and proved to count exactly once and to "
+           "record exactly one failure of the named class at the file and line passed in iff the model's predicate is false. The macro layer "
+           "(integer promotions, operand evaluation) stays model + correspondence.",
+    "C11": " SOURCE TIE BY PROOF: GccPlatformSpecificRunTestInASeperateProcess (fork failure, the child's verdict, the parent's wait loop with its retry "
+           "bound and SIGCONT) and SetTestFailureByStatusCode are regenerated from UtestPlatform.cpp on every run (tools/cxx2gal.py; fork / "
+           "waitpid / getFailureCount as ghost oracle streams) and proved to do what the model's parent_loop / set_failure_by_status say on every "
+           "outcome stream. Kernel behaviour stays observed on real children.",
+    "C14": " SOURCE TIE BY PROOF: SimpleStringBuffer::add / clear / setWriteLimit / resetWriteLimit / reachedItsCapacity (translated leaves) and the seven "
+           "first-difference scans of the failure constructors (each loop translated on its own, tools/cxx2gal.py) are regenerated from the "
+           "source on every run and proved against the model (buffer state machine; textbook first difference, nothing read past the terminators).",
     "C04": " SOURCE TIE BY PROOF: every member function of MemoryLeakDetectorList and MemoryLeakDetectorTable (23 functions, the prev/cur unlink walks "
            "included) is regenerated from MemoryLeakDetector.cpp on every run by tools/cxx2heap.py (clang AST -> Gallina over an object heap) and proved to "
            "implement the model's bucket / table functions on the heap representation (41 of the theorems); MemoryLeakDetector itself stays model + correspondence.",
